@@ -29,7 +29,8 @@ let () =
          let obs () =
            if obsl >= 1 then begin ignore (H_pages.pagelist w false); ignore (H_pages.pagelist w true) end;
            if obsl >= 2 then begin ignore (H_pages.findall w false); ignore (H_pages.findall w true) end;
-           Buffer.add_string out ("L=" ^ leaves_str (fst !w) ^ "/" ^ leaves_str (snd !w) ^ "|") in
+           Buffer.add_string out ("L=" ^ leaves_str (fst !w) ^ "/" ^ leaves_str (snd !w) ^
+                                  " F=" ^ (if pgx_flat_chk (fst !w) then "1" else "0") ^ (if pgx_flat_chk (snd !w) then "1" else "0") ^ "|") in
          obs ();
          let opstr = match rest with o :: _ -> o | [] -> "" in
          if opstr <> "-" && opstr <> "" then
@@ -45,6 +46,9 @@ let () =
          Buffer.add_string out ("W=" ^ reread_str (fst !w) ^ "/" ^ reread_str (snd !w));
          Buffer.contents out
        | _ -> "?no-template")
+    | _ -> "?args");
+  register "pgxflat" (fun args -> match args with
+    | [name] -> (match Hashtbl.find_opt H_pages.templates name with Some p -> if pgx_flat_chk p then "1" else "0" | None -> "?no-template")
     | _ -> "?args");
   register "pgxleaves" (fun args -> match args with
     | [dump] -> leaves_str (H_pages.doc_of_text (unhex dump))
